@@ -1,6 +1,8 @@
 import Rare.Proofs.C02
 import Rare.Proofs.C02Filter
 import Rare.Proofs.C02Named
+import Rare.Proofs.C02RxIdx
+import Rare.Model.C02RxParse
 import Rare.Model.C02Plan
 import Rare.Props.C01
 import Rare.Props.C04
@@ -113,6 +115,81 @@ code terminator of `color.StrLen`, and the two numbers of `filter`'s default-out
 theorem c02_constants_from_source :
     Gen.C02.arraySeparator = 0 ∧ Gen.C02.escapeRune = 0x1b ∧ Gen.C02.codeEnd = 0x6d ∧
     Gen.C02.filterWholeLen = 2 ∧ Gen.C02.filterSkip = 2 := by decide
+
+/-- **`GetMatch` is written with the source's own guards and index arithmetic** (regenerated from
+/repo on every run): `sliceIndex := idx*2` (int64), the bounds guard, the two reads and the `-1` guard. -/
+theorem getMatch_guards_from_source (line : Bytes) (indices : List Int) (idx : Int) :
+    getMatch line indices idx =
+      (let si := wrap64 (Gen.C02.getMatchSliceIndex idx)
+       if Gen.C02.getMatchGuard0 idx si indices.length then .ok []
+       else
+         let start := indices.getD (Gen.C02.getMatchStartAt si).toNat 0
+         let stop := indices.getD (Gen.C02.getMatchEndAt si).toNat 0
+         if Gen.C02.getMatchGuard1 start stop then .ok [] else goSlice line start stop) := by
+  unfold getMatch Gen.C02.getMatchGuard0 Gen.C02.getMatchGuard1 Gen.C02.getMatchSliceIndex
+    Gen.C02.getMatchStartAt Gen.C02.getMatchEndAt
+  simp only [Bool.or_eq_true, decide_eq_true_eq, or_assoc]
+  by_cases h : idx < 0 ∨ wrap64 (idx * 2) < 0 ∨ wrap64 (idx * 2) + 1 ≥ (indices.length : Int)
+  · rw [if_pos h, if_pos h]
+  · rw [if_neg h, if_neg h]
+    have e : (wrap64 (idx * 2) + 1).toNat = (wrap64 (idx * 2)).toNat + 1 := by omega
+    rw [e]
+
+/-- `array()`'s loop starts at group 1, runs while `i < len(indices)/2`, and writes the separator
+before every element but the first (`i > 1`) – the source's expressions. -/
+theorem array_guards_from_source :
+    Gen.C02.arrayFirst = 1 ∧
+    (∀ i n : Nat, Gen.C02.arrayLoopCond i n = decide (i < n / 2)) ∧
+    (∀ i : Nat, Gen.C02.arraySepCond i = decide (i > 1)) := by
+  refine ⟨rfl, ?_, ?_⟩
+  · intro i n
+    unfold Gen.C02.arrayLoopCond
+    rw [Int.tdiv_eq_ediv_of_nonneg (by omega)]
+    apply decide_eq_decide.mpr
+    omega
+  · intro i
+    unfold Gen.C02.arraySepCond
+    apply decide_eq_decide.mpr
+    omega
+
+/-- `WrapIndices`' conditions are the source's: the early return on an empty or odd list, the per-pair
+guard (absent, empty, reversed and overlapping groups are skipped), the tail guard, and the colour of
+pair `i` is entry `i mod 12` of the table. -/
+theorem wrap_guards_from_source :
+    (∀ n : Nat, Gen.C02.wrapEarly n = decide (n = 0 ∨ n % 2 ≠ 0)) ∧
+    (∀ start stop last : Int, Gen.C02.wrapPairGuard start stop last =
+      decide (start ≥ 0 ∧ stop ≥ 0 ∧ stop > start ∧ start ≥ last)) ∧
+    (∀ (last : Int) (n : Nat), Gen.C02.wrapTailGuard last n = decide (last < n)) ∧
+    (∀ i : Nat, Gen.C02.wrapColorIndex ((2 * i : Nat) : Int) (Gen.C02.groupColors.length : Nat) =
+      ((i % Gen.C02.groupColors.length : Nat) : Int)) := by
+  refine ⟨?_, ?_, ?_, ?_⟩
+  · intro n
+    unfold Gen.C02.wrapEarly
+    rw [Int.tmod_eq_emod_of_nonneg (by omega)]
+    rw [← Bool.decide_or]
+    apply decide_eq_decide.mpr
+    omega
+  · intro a b c
+    unfold Gen.C02.wrapPairGuard
+    simp only [← Bool.decide_and, and_assoc]
+  · intro l n; rfl
+  · intro i
+    have hl : Gen.C02.groupColors.length = 12 := by decide
+    unfold Gen.C02.wrapColorIndex
+    rw [hl, Int.tdiv_eq_ediv_of_nonneg (by omega), Int.tmod_eq_emod_of_nonneg (by omega)]
+    omega
+
+/-- The two `switch`es are the source's: `GetKey` answers exactly the reserved keys (in this order, each
+by the expected method) before consulting the name table; `BuildMatcherFromArguments` tests
+conflict, dissect, match, default in this order; the regex wrapper compiles with `CompilePOSIX` under
+`--posix` and `Compile` otherwise. -/
+theorem switches_from_source :
+    (Gen.C02.getKeyCases.flatMap (·.1)).map lit = reservedKeys ∧
+    Gen.C02.getKeyCases.map (·.2) = ["s.source", "strconv.FormatUint(s.lineNum,10)", "s.json(true,false)",
+      "s.json(false,true)", "s.json(true,true)", "s.array()"] ∧
+    Gen.C02.planSwitch = ["c.IsSet(\"match\")&&c.IsSet(\"dissect\")", "c.IsSet(\"dissect\")", "c.IsSet(\"match\")", "default"] ∧
+    Gen.C02.buildRegexp = ["if:posix", "return:regexp.CompilePOSIX", "return:regexp.Compile"] := by
+  decide +kernel
 
 /-- Every colour code `WrapIndices` can insert is one complete code for `color.StrLen`'s state machine
 (ESC … `m`), so "with colour codes removed" (`visible`) removes each of them entirely and nothing after it. -/
@@ -254,6 +331,96 @@ theorem always_match_spec (line : Bytes) :
     have : ¬ (0 ≤ k ∧ 2 * k + 1 < ((alwaysIndices line).length : Int)) := by simp [alwaysIndices]; omega
     simp [this]
 
+
+/-! ### The regex engine, for a fragment of the syntax (literals, classes, `.`, `^`, `$`, concatenation,
+alternation, greedy and lazy `*` `+` `?` over bodies that cannot match the empty text, capture groups)
+
+`Rx.den` lists all ways an expression matches from an offset in priority order (its head = the
+leftmost-first answer), `Rx.mk` is the executable backtracking matcher, `Rx.Derives` the derivation
+relation ("`r` matches `s[i:j]`"), `Rx.search` the unanchored search, `Rx.findSubmatchIndex` the `[]int`.
+The `rx` / `rxkey` cases compare them with the real `fastregex.CompileEx(…).FindSubmatchIndex`. -/
+
+/-- The backtracking matcher explores the alternatives in priority order and stops at the first
+complete match: it returns exactly the first element of the priority list that the rest of the match
+(`k`) accepts; anchored at `p` with nothing after it, the head of the list. -/
+theorem rx_backtracking_is_first {β : Type} (s : Bytes) (r : Rx.Re) (i : Nat) (c : Rx.Caps)
+    (k : Nat → Rx.Caps → Option β) :
+    Rx.mk s r i c k = (Rx.den s r i c).findSome? (fun x => k x.1 x.2) ∧
+    Rx.matchAt s r i = (Rx.den s r i []).head? :=
+  ⟨Rx.mk_eq s r i c k, Rx.matchAt_eq s r i⟩
+
+/-- The priority list contains exactly the derivations: `r` can match `s[p:j]` iff some element of the
+list ends at `j`. -/
+theorem rx_list_is_derivations (s : Bytes) (r : Rx.Re) (p j : Nat) (hp : p ≤ s.length) :
+    (∃ c, (j, c) ∈ Rx.den s r p []) ↔ Rx.Derives s r p j :=
+  ⟨fun ⟨c, h⟩ => (Rx.den_sound s r p [] (j, c) hp h).1,
+   fun h => Rx.den_complete s r p j [] h (h.le_length hp)⟩
+
+/-- **Leftmost-first.**  When the search reports `(p, j, c)`: `s[p:j]` is a match of `r`; nothing at all
+matches from any earlier start offset (leftmost); among the matches from `p` it is the first in priority
+order; and when it reports nothing, no stretch of the text matches. -/
+theorem rx_leftmost_first (s : Bytes) (r : Rx.Re) :
+    (∀ p j c, Rx.search s r = some (p, j, c) →
+      p ≤ j ∧ j ≤ s.length ∧ Rx.Derives s r p j ∧ (∀ q, q < p → ∀ j', ¬ Rx.Derives s r q j') ∧
+      (Rx.den s r p []).head? = some (j, c)) ∧
+    (Rx.search s r = none → ∀ q, q ≤ s.length → ∀ j', ¬ Rx.Derives s r q j') := by
+  refine ⟨?_, Rx.search_none s r⟩
+  intro p j c h
+  obtain ⟨h1, h2, h3, h4, h5, _⟩ := Rx.search_some s r p j c h
+  exact ⟨h1, h2, h3, h5, h4⟩
+
+/-- **Group spans are sub-matches.**  The value the search reports for group `n` is a stretch inside the
+whole match that the body of a group numbered `n` in `r` derives. -/
+theorem rx_groups_are_submatches (s : Bytes) (r : Rx.Re) (p j : Nat) (c : Rx.Caps)
+    (h : Rx.search s r = some (p, j, c)) (n a b : Nat) (hl : Rx.lookup c n = some (a, b)) :
+    p ≤ a ∧ a ≤ b ∧ b ≤ j ∧ ∃ body, Rx.Sub r n body ∧ Rx.Derives s body a b :=
+  (Rx.search_some s r p j c h).2.2.2.2.2 _ (Rx.lookup_mem hl)
+
+/-- **The seam "engine = data", closed for the fragment.**  The index list the model engine hands to the
+extractor is empty exactly when nothing matches, and otherwise an engine-shaped list (`EngineWF` – the
+hypothesis of `getMatch_spec`, `array_spec`, `filter_output_engine`, `named_group_value`) of
+`2·(groups+1)` entries. -/
+theorem rx_indices_engineWF (s : Bytes) (r : Rx.Re) (ng : Nat) :
+    (Rx.findSubmatchIndex s r ng = [] ↔ Rx.search s r = none) ∧
+    (Rx.findSubmatchIndex s r ng ≠ [] →
+      EngineWF s (Rx.findSubmatchIndex s r ng) ∧ (Rx.findSubmatchIndex s r ng).length = 2 * (ng + 1)) := by
+  unfold Rx.findSubmatchIndex
+  cases h : Rx.search s r with
+  | none => simp
+  | some m =>
+    obtain ⟨p, j, c⟩ := m
+    have hne : Rx.indicesOf ng (p, j, c) ≠ [] := by
+      intro e
+      have := Rx.indicesOf_length ng (p, j, c)
+      rw [e] at this
+      simp at this
+    obtain ⟨h1, h2, _, _, _, h6⟩ := Rx.search_some s r p j c h
+    refine ⟨⟨fun e => absurd e hne, fun e => by cases e⟩, fun _ => ?_⟩
+    exact ⟨Rx.indicesOf_engineWF s ng p j c h1 h2 (Rx.capsIn_of_entries h6), Rx.indicesOf_length ng _⟩
+
+/-- **Capture values of the leftmost-first match through `GetMatch`.**  On the model engine's index
+list `{0}` is the matched stretch, `{n}` (`1 ≤ n ≤ groups`) is the text of group `n`'s span – empty when
+the group did not participate – and it never panics. -/
+theorem rx_capture_values (s : Bytes) (r : Rx.Re) (ng p j : Nat) (c : Rx.Caps)
+    (h : Rx.search s r = some (p, j, c)) (hng : (ng : Int) < 2305843009213693951) :
+    getMatch s (Rx.findSubmatchIndex s r ng) 0 = .ok ((s.drop p).take (j - p)) ∧
+    ∀ n : Nat, 1 ≤ n → n ≤ ng →
+      getMatch s (Rx.findSubmatchIndex s r ng) (n : Int) =
+        .ok (match Rx.lookup c n with
+          | some (a, b) => (s.drop a).take (b - a)
+          | none => []) := by
+  have hidx : Rx.findSubmatchIndex s r ng = Rx.indicesOf ng (p, j, c) := by simp [Rx.findSubmatchIndex, h]
+  obtain ⟨h1, h2, _, _, _, h6⟩ := Rx.search_some s r p j c h
+  have hwf := (Rx.indicesOf_engineWF s ng p j c h1 h2 (Rx.capsIn_of_entries h6)).wf
+  have hlen : ((Rx.indicesOf ng (p, j, c)).length : Int) < 4611686018427387904 := by
+    rw [Rx.indicesOf_length]; omega
+  rw [hidx]
+  refine ⟨?_, ?_⟩
+  · rw [getMatch_eq_spec s _ 0 hwf hlen (by unfold minInt64 maxInt64; omega), Rx.specGroup_zero]
+  · intro n hn1 hn2
+    rw [getMatch_eq_spec s _ n hwf hlen (by unfold minInt64 maxInt64; omega), Rx.specGroup_group s ng _ n hn1 hn2]
+    rfl
+
 /-- Non-vacuity: an optional group that did not participate, a nested group, and a missing group. -/
 example : WF [97, 98, 99] [0, 3, -1, -1, 1, 2] ∧
     specGroup [97, 98, 99] [0, 3, -1, -1, 1, 2] 0 = [97, 98, 99] ∧
@@ -313,5 +480,26 @@ example : matcherPlan true false (lit "err (\\d+)") [] true true = .regex (lit "
 
 /-- an index list of odd length < 2 would panic in `match.Indices[2:]` (no matcher returns one) -/
 example : (filterLine true [] [] [97] [0]).toBool = false := by decide
+
+
+/-- `(a|ab)(c|bcd)(d*)` on `abcd`: leftmost-FIRST takes `a`, then `bcd`, then the empty `d*`
+(POSIX leftmost-longest would take `ab`, `c`, `d`) -/
+example : Rx.findSubmatchIndex (lit "abcd")
+    (.cat (.grp 1 (.alt (.cls false [(97, 97)]) (.cat (.cls false [(97, 97)]) (.cls false [(98, 98)]))))
+      (.cat (.grp 2 (.alt (.cls false [(99, 99)])
+          (.cat (.cls false [(98, 98)]) (.cat (.cls false [(99, 99)]) (.cls false [(100, 100)])))))
+        (.grp 3 (.star true (.cls false [(100, 100)]))))) 3 = [0, 4, 0, 1, 1, 4, 4, 4] := by decide +kernel
+
+/-- `(?:(b)|(a))*` on `ab`: a group inside a loop keeps its last participation (`[0,2, 1,2, 0,1]`);
+`x(a)?` on `xb`: a group that did not participate reads `-1,-1` -/
+example : Rx.findSubmatchIndex (lit "ab")
+      (.star true (.alt (.grp 1 (.cls false [(98, 98)])) (.grp 2 (.cls false [(97, 97)])))) 2 = [0, 2, 1, 2, 0, 1] ∧
+    Rx.findSubmatchIndex (lit "xb")
+      (.cat (.cls false [(120, 120)]) (.alt (.grp 1 (.cls false [(97, 97)])) .eps)) 1 = [0, 1, -1, -1] := by
+  decide +kernel
+
+/-- the parser: `(\w+) (?P<path>\S+)` has two groups, the second is named -/
+example : (Rx.parse (lit "(\\w+) (?P<path>\\S+)")).map (fun p => (p.ng, p.subexpNames)) = some (2, [[], [], lit "path"]) := by
+  decide +kernel
 
 end Rare.C02
